@@ -137,6 +137,22 @@ pub fn methods(thorough: bool) -> Vec<Method> {
             });
         }
     }
+    // arguments whose names mean something elsewhere in the protocol or are likely names of locals
+    // in the generated code: inside `parameters` they are ordinary members
+    let special = ["method", "parameters", "more", "oneway", "upgrade", "error", "continues", "call", "reply", "conn", "connection", "result", "params"];
+    let tys: Vec<Ty> = if thorough { TYS.to_vec() } else { vec![Ty::Str, Ty::U32, Ty::OptStr] };
+    for (si, name) in special.iter().enumerate() {
+        for (ti, t) in tys.iter().enumerate() {
+            let n = k;
+            k += 1;
+            let kind = kinds[(si + ti) % 3];
+            let mut params = vec![(name.to_string(), *t, None)];
+            if (si + ti) % 2 == 0 {
+                params.push((special[(si + 1) % special.len()].to_string(), Ty::Bool, None));
+            }
+            out.push(Method { rust_name: format!("sp_{n}"), rename: None, params, explicit_lifetimes: false, kind, out: if kind == Kind::Oneway { Out::Unit } else { outs[n % 3] } });
+        }
+    }
     out
 }
 
@@ -225,7 +241,8 @@ pub fn generate(thorough: bool) -> (String, usize) {
             let has_generic = m.params.iter().any(|p| p.1 == Ty::Generic);
             let fish = if has_generic { "::<_, Out, PErr>" } else { "::<Out, PErr>" };
             let (ok_reply, ok_pat) = match m.out {
-                Out::Unit => ("{}", "()"),
+                // "no parameters" is spelled absent, null or {} in turn
+                Out::Unit => (["{}", "{\"parameters\":null}", "{\"parameters\":{}}"][i % 3], "()"),
                 Out::Owned => ("{\"parameters\":{\"v\":5}}", "Out { v: 5 }"),
                 Out::Borrowed => ("{\"parameters\":{\"s\":\"bo\"}}", "OutB { s: \"bo\" }"),
             };
@@ -246,7 +263,11 @@ pub fn generate(thorough: bool) -> (String, usize) {
                 }
                 Kind::More => {
                     let item = |c: &str| match m.out {
-                        Out::Unit => format!("{{\"continues\":{c}}}"),
+                        Out::Unit => match c {
+                            "true" if i % 2 == 0 => "{\"continues\":true}".to_string(),
+                            "true" => "{\"parameters\":null,\"continues\":true}".to_string(),
+                            _ => format!("{{\"parameters\":{{}},\"continues\":{c}}}"),
+                        },
                         Out::Owned => format!("{{\"parameters\":{{\"v\":5}},\"continues\":{c}}}"),
                         Out::Borrowed => format!("{{\"parameters\":{{\"s\":\"bo\"}},\"continues\":{c}}}"),
                     };
